@@ -105,6 +105,18 @@ def r1_delegation(prog, rep: Report, fam: Family, mut: Cls, lines: str):
                     what = "entry" if src(v) == entry else \
                         "read" if (isinstance(v, ast.Call) and isinstance(v.func, ast.Attribute) and v.func.attr == fam.raw_reader
                                    and [src(a) for a in v.args] == [n]) else "other"
+                    if what == "other" and isinstance(v, ast.Call) and isinstance(v.func, ast.Attribute) and v.func.attr == fam.next_reader \
+                            and not v.args and fam.seek_helper:
+                        # the raw reader inlined (it is a one-implementation helper): seek to the n-th offset, read the next line
+                        par = getattr(node, "_parent", None)
+                        for fld in ("body", "orelse", "finalbody"):
+                            lst = getattr(par, fld, None)
+                            if isinstance(lst, list) and node in lst and lst.index(node) > 0:
+                                prev = lst[lst.index(node) - 1]
+                                if isinstance(prev, ast.Expr) and isinstance(prev.value, ast.Call) and isinstance(prev.value.func, ast.Attribute) \
+                                        and prev.value.func.attr == fam.seek_helper and len(prev.value.args) == 1 \
+                                        and src(prev.value.args[0]) in (f"{g.self_name}.{lines}[{n}]", entry):
+                                    what = "read"
                     s_.rets.append((state[0], what))
                 return (state,)
         rp = _RP()
